@@ -11,7 +11,7 @@ import (
 )
 
 // classes whose effect the model states (a `…_witness` theorem exists): on these the model must predict the failure
-var modelExpresses = map[string]bool{"variadic-empty": true, "method-value-variadic": true, "defer-spread": true, "script-dyn-variadic-elem": true}
+var modelExpresses = map[string]bool{"method-value-variadic": true, "script-dyn-variadic-elem": true}
 
 func boxedInside(v *Val) bool {
 	return anyVal(v, func(x *Val) bool {
@@ -96,6 +96,9 @@ func modelLine(c *Case) string {
 	switch c.Dir {
 	case "retain":
 		// one wrapper value of a declared function, invoked while / after another invocation of it
+		if c.Mode == "recvbind" {
+			return "C07 recvbind" // the wrapper of a method: the receiver it is called with
+		}
 		d := c.Depth
 		if c.Mode != "reenter" {
 			d = 1
@@ -107,11 +110,20 @@ func modelLine(c *Case) string {
 		if c.ArgSrc != "" {
 			return "" // arguments from a nested call: the outer arms, not modelled per argument
 		}
+		if viaCall(c) {
+			// the callee is a variable (or a parameter of the wrapper function W) of a script-written function type holding a
+			// host function: `call`, function-value branch — only the packing is modelled on that path
+			nf := len(c.Sig.In)
+			if c.Sig.Variadic {
+				nf--
+			}
+			return fmt.Sprintf("C07 pack fv %s %s %s %d %d", b01(c.Sig.Variadic), b01(c.Spread), b01(c.Ctx == "defer"), nf, len(c.Args))
+		}
 		hasRecv, isIface, inSig := false, false, false
 		if c.Dir == "meth" {
 			hasRecv = true
 			isIface = c.Recv == "iface"
-			inSig = c.Recv == "ptr" || c.Recv == "val" || c.Recv == "embedded"
+			inSig = c.Recv == "ptr" || c.Recv == "val" || c.Recv == "embedded" || c.Recv == "sptr"
 		}
 		params := make([]string, len(c.Sig.In))
 		for i, p := range c.Sig.In {
@@ -209,6 +221,10 @@ func modelCorrespondence(run *common.Run, drv *common.Driver, results []resultT)
 		implOK := r.impl.key() == r.ref.key()
 		predOK := f["y"] == "ok"
 		switch {
+		case cls == "" && !predOK && implOK && r.c.Recv == "sptr" && strings.Contains(f["y"], "variadic-empty") &&
+			(r.c.Method == "AddAll" || r.c.Method == "Any" || len(r.c.Sig.Out) == 0 || r.c.Ctx == "defer" || r.c.Ctx == "stmt"):
+			// a Counter made by the script has no recorder: whether the variadic slice was nil or empty is not observed
+			run.Hit("model-predicts-unobservable-effect")
 		case cls == "" && !predOK && implOK:
 			// the model, run with the facts of the current source, says this call goes wrong; the implementation is fine
 			run.Disagree(common.Disagreement{Kind: "impl-vs-model", Input: r.c, Impl: "agrees with the reference", Model: f["y"], Note: lines[j]})
